@@ -390,6 +390,10 @@ func c10DirectedUntyped() []c10Program {
 		{"k = make(struct { A interface }); k.A = {\"z\": 1}; m = make(map[interface]int64); r = \"ok\"; try { m[k] = 5 } catch e { r = \"E\" }; probe(r); probe(len(m))", j(p("E"), p(i(0)))},
 		{"f = func() { }; m = {}; r = \"ok\"; try { m[f] = 1 } catch e { r = \"E\" }; probe(r); probe(m[f]); probe(len(m))", j(p("E"), p(nil), p(i(0)))},
 		{"a = [1, 2, 3]; b = []; b += a; b[0] = 9; probe(a); probe(b)", j(p([]interface{}{i(1), i(2), i(3)}), p([]interface{}{i(9), i(2), i(3)}))},
+		{"a = [1, 2, 3]; a += [4]; b = a[0:2]; b += [9]; probe(a); probe(b)", j(p([]interface{}{i(1), i(2), i(9), i(4)}), p([]interface{}{i(1), i(2), i(9)}))},
+		{"a = make([]interface, 2, 8); b = a[0:2]; b += [\"x\"]; a += [\"y\"]; probe(b[2])", p("y")},
+		{"a = make([]interface, 2, 8); b = a[1:2]; b[1] = \"x\"; a += [\"y\"]; probe(b); probe(len(a))", j(p([]interface{}{nil, "y"}), p(i(3)))},
+		{"a = [1, 2, 3, 4]; b = a[1:2]; r = \"ok\"; try { c = b[0:3] } catch e { r = \"E\" }; probe(r)", p("E")},
 		{"src = [1, 2, 3, 4]; w = src[0:0]; w += [7, 8]; probe(src); probe(w)", j(p([]interface{}{i(7), i(8), i(3), i(4)}), p([]interface{}{i(7), i(8)}))},
 	}
 }
